@@ -33,12 +33,16 @@ pub enum Ev {
     Replay { t: u64, from: u8, nth: usize },
     #[serde(rename = "clock_jump")]
     ClockJump { t: u64, node: u8, delta_ms: i64 },
+    /// the node stops and comes back on its other IP address (same storage and node id); peers
+    /// learn the new address from the next membership view they are handed
+    #[serde(rename = "move")]
+    Move { t: u64, node: u8 },
 }
 
 impl Ev {
     pub fn t(&self) -> u64 {
         match self {
-            Ev::Op { t, .. } | Ev::Hold { t, .. } | Ev::Release { t, .. } | Ev::Crash { t, .. } | Ev::Restart { t, .. } | Ev::View { t, .. } | Ev::Replay { t, .. } | Ev::ClockJump { t, .. } => *t,
+            Ev::Op { t, .. } | Ev::Hold { t, .. } | Ev::Release { t, .. } | Ev::Crash { t, .. } | Ev::Restart { t, .. } | Ev::View { t, .. } | Ev::Replay { t, .. } | Ev::ClockJump { t, .. } | Ev::Move { t, .. } => *t,
         }
     }
 }
@@ -89,7 +93,7 @@ fn validate(sc: &Scenario) -> Result<(), String> {
         let ok = match e {
             Ev::Op { node, spec, .. } => ids.contains(node) && !spec.ids.is_empty(),
             Ev::Hold { a, b, .. } | Ev::Release { a, b, .. } => ids.contains(a) && ids.contains(b) && a != b,
-            Ev::Crash { node, .. } | Ev::Restart { node, .. } | Ev::ClockJump { node, .. } => ids.contains(node),
+            Ev::Crash { node, .. } | Ev::Restart { node, .. } | Ev::ClockJump { node, .. } | Ev::Move { node, .. } => ids.contains(node),
             Ev::View { node, members, .. } => ids.contains(node) && members.iter().all(|m| ids.contains(m)),
             Ev::Replay { from, .. } => ids.contains(from),
         };
@@ -139,12 +143,16 @@ pub fn run_cluster(sc: &Scenario, prop: &str) -> Result<RunResult, String> {
                 }
             },
             Ev::Hold { a, b, .. } => {
-                cl.sim.hold(host_name(*a), host_name(*b));
+                cl.sim.hold(cl.host_of(*a), cl.host_of(*b));
                 held.insert((*a.min(b), *a.max(b)));
                 out.fault("link_hold");
             },
             Ev::Release { a, b, .. } => {
-                cl.sim.release(host_name(*a), host_name(*b));
+                for ha in [host_name(*a), alt_host_name(*a)] {
+                    for hb in [host_name(*b), alt_host_name(*b)] {
+                        cl.sim.release(ha.clone(), hb);
+                    }
+                }
                 held.remove(&(*a.min(b), *a.max(b)));
             },
             Ev::Crash { node, .. } => {
@@ -182,6 +190,13 @@ pub fn run_cluster(sc: &Scenario, prop: &str) -> Result<RunResult, String> {
                     }
                 }
             },
+            Ev::Move { node, .. } => {
+                cl.move_node(*node);
+                crashed.remove(node);
+                // the address changed: peers are told left+joined by the next view, no flap needed
+                ever_restarted.remove(node);
+                out.fault("node_moved_to_another_address");
+            },
             Ev::ClockJump { node, delta_ms, .. } => {
                 *cl.clock_jumps.borrow_mut().entry(*node).or_insert(0) += delta_ms;
                 out.fault(if *delta_ms < 0 { "clock_jump_backwards" } else { "clock_jump_forwards" });
@@ -192,7 +207,11 @@ pub fn run_cluster(sc: &Scenario, prop: &str) -> Result<RunResult, String> {
 
     // ---- constructed quiescence: all faults stop ----
     for (a, b) in held.iter() {
-        cl.sim.release(host_name(*a), host_name(*b));
+        for ha in [host_name(*a), alt_host_name(*a)] {
+            for hb in [host_name(*b), alt_host_name(*b)] {
+                cl.sim.release(ha.clone(), hb);
+            }
+        }
     }
     for n in crashed.clone() {
         cl.restart(n);
@@ -455,6 +474,10 @@ pub fn gen_cluster_scenario(rng: &mut rand::rngs::SmallRng, k: &GenKnobs) -> Sce
             jitter_sites.push((s.to_string(), rng.gen_range(1..400)));
         }
     }
+    // emulates a task being descheduled between taking its timestamp and applying locally
+    if rng.gen_bool(0.35) {
+        jitter_sites.push(("store.before_local_apply".to_string(), rng.gen_range(1..40)));
+    }
     let cfg = ClusterCfg {
         nodes,
         tick_ms: *[1u64, 2, 5].choose(rng).unwrap(),
@@ -544,6 +567,16 @@ pub fn gen_cluster_scenario(rng: &mut rand::rngs::SmallRng, k: &GenKnobs) -> Sce
             events.push(Ev::Replay { t: rng.gen_range(300..span + 2_000), from: *ids.choose(rng).unwrap(), nth: rng.gen_range(0..64) });
         }
     }
+    if rng.gen_bool(0.2) {
+        let node = *ids.choose(rng).unwrap();
+        let mt = rng.gen_range(200..span.max(300));
+        events.push(Ev::Move { t: mt, node });
+        for p in &ids {
+            if *p != node {
+                events.push(Ev::View { t: mt + rng.gen_range(20..1_500), node: *p, members: ids.clone() });
+            }
+        }
+    }
     if f_jump {
         for _ in 0..rng.gen_range(1..=2) {
             events.push(Ev::ClockJump { t: rng.gen_range(0..span), node: *ids.choose(rng).unwrap(), delta_ms: rng.gen_range(-300_000..300_000) });
@@ -593,6 +626,18 @@ pub fn gen_burst_scenario(rng: &mut rand::rngs::SmallRng) -> Scenario {
             t += rng.gen_range(0..4);
         }
         t += rng.gen_range(100..2_500);
+    }
+    // sometimes a writer comes back on another address in between; its peers learn the new
+    // address in one membership snapshot (left + joined in a single change)
+    if rng.gen_bool(0.4) {
+        let w = *writers.choose(rng).unwrap();
+        let mt = rng.gen_range(300..t.max(400));
+        events.push(Ev::Move { t: mt, node: w });
+        for p in &ids {
+            if *p != w && !writers.contains(p) {
+                events.push(Ev::View { t: mt + rng.gen_range(20..600), node: *p, members: ids.clone() });
+            }
+        }
     }
     events.sort_by_key(|e| e.t());
     Scenario { cfg, events, closing_seed: rng.gen(), closing_parallel: false, settle_ms: 0, closing_mode: "background".to_string() }
@@ -692,7 +737,7 @@ impl Check for C01 {
         "E2 cluster engine: 2-5 complete nodes as turmoil hosts (real store, RPC stack, clock, selector, membership watcher) over simulated TCP; SimStorage outside the hosts; harness-owned membership views"
     }
     fn rule(&self) -> &'static str {
-        "Cases: 2-5 nodes in 1-3 data centres, optional wall-clock skew up to +-10 min, 5-40 put/put_many/del/del_many at seeded nodes and times (a quarter aligned with the distributor's 1 s batch tick) with all eight consistency levels on 1-3 keyspaces and 1-6 ids (so writers collide); a seeded subset of fault kinds per run: link hold/release, node crash/restart with lagging or missing death/return notices at peers, partial membership views (peers that get no batches), replayed replication messages (duplicate, late, reordered direct messages), clock jumps, storage failures and latency, cooperative delays at the two halves of a repair / keyspace creation / batch execution; background poller on (1-6 s) or off. Then quiescence is constructed (links released, nodes restarted and re-announced, views completed, all calls returned) and every node runs the real repair path (poll_keyspace -> get_state -> Diff -> MultiDel/fetch_docs+MultiSet) against every other node, in seeded order, optionally two at a time, each until the tracker reports nothing unsynced. Oracle: every node's store holds exactly the last-writer-wins live documents (id, bytes, timestamp) computed from the operations captured at their issuers' stores. Non-trivial = two origins wrote one (keyspace, id) AND at least one fault fired. Distinct = hash of all nodes' ordered storage-call sequences."
+        "Cases: 2-5 nodes in 1-3 data centres, optional wall-clock skew up to +-10 min, 5-40 put/put_many/del/del_many at seeded nodes and times (a quarter aligned with the distributor's 1 s batch tick) with all eight consistency levels on 1-3 keyspaces and 1-6 ids (so writers collide); a seeded subset of fault kinds per run: link hold/release, node crash/restart with lagging or missing death/return notices at peers, a node coming back on another IP address (peers learn it as left+joined in one membership change), partial membership views (peers that get no batches), replayed replication messages (duplicate, late, reordered direct messages), clock jumps, storage failures and latency, cooperative delays at the two halves of a repair / keyspace creation / batch execution / between timestamping and local apply; background poller on (1-6 s) or off. Then quiescence is constructed (links released, nodes restarted and re-announced, views completed, all calls returned) and every node runs the real repair path (poll_keyspace -> get_state -> Diff -> MultiDel/fetch_docs+MultiSet) against every other node, in seeded order, optionally two at a time, each until the tracker reports nothing unsynced. Oracle: every node's store holds exactly the last-writer-wins live documents (id, bytes, timestamp) computed from the operations captured at their issuers' stores. Non-trivial = two origins wrote one (keyspace, id) AND at least one fault fired. Distinct = hash of all nodes' ordered storage-call sequences."
     }
     fn assumptions(&self) -> Vec<String> {
         vec![
